@@ -4,9 +4,9 @@ from fractions import Fraction
 import lib, storelib as S, arithlib as A
 from lib import Result, model_call, run_sharded, e_list, e_dy, Reader, outcome
 
-RULE = ('scalar and array inputs whose elements are dyadic rationals k/2^f with f<=20 and |k|<2^40 (boundary values +-2^j, 2^j - LSB, small integers, random; arrays with symmetric and near-symmetric extremes v, -v, -v+-LSB), as floats, Python ints and int arrays; signedness True / False (non-negative values) / default; '
+RULE = ('scalar and array inputs whose elements are dyadic rationals k/2^f with f<=20 and |k|<2^40 (boundary values +-2^j, 2^j - LSB, small integers, random; arrays with symmetric and near-symmetric extremes v, -v, -v+-LSB), as floats, Python ints, int arrays and NumPy scalars / arrays of narrow dtypes (int8..uint32, float16, float32); signedness True / False (non-negative values) / default; '
         'every subset of {n_word, n_frac, n_int} left unspecified. Checked with exact rationals: values stored exactly with no flag; n_frac minimal (fewest fraction bits making all values integral); n_word minimal with a non-negative integer length; '
-        'only n_word given: n_frac = min(exact n_frac, room left); only n_frac given: minimal word; n_int given with one other size: the third follows arithmetically; capped case (random non-dyadic doubles): n_word <= 64, error < 1 LSB, inexact flag. '
+        'only n_word given: n_frac = min(exact n_frac, room left); only n_frac given: minimal word; n_int given with one other size: the third follows arithmetically; capped case (scalars and arrays of 1..3 random non-dyadic doubles of different magnitudes, optionally with n_word given): word within the limit, every element within 1 LSB, no overflow, inexact flag. '
         'Compared also with the model Sizes.init_size. Non-trivial = some value has a fractional part or needs more than 1 integer bit; distinct by full input.')
 ASSUMPTIONS = ['"minimal" follows the statement: fewest fraction bits first, then fewest word bits with n_int >= 0']
 
@@ -36,8 +36,21 @@ def gen(rng):
     signed = rng.choice([True, None, False])
     if signed is False: vals = [abs(v) for v in vals]
     given = rng.choice(['none', 'none', 'n_word', 'n_frac', 'n_int+n_frac', 'n_int+n_word', 'n_int'])
-    return {'vals': [str(v) for v in vals], 'signed': signed, 'given': given, 'shape': 'scalar' if n == 1 and rng.random() < 0.7 else 'array',
-            'carrier': rng.choice(['float', 'float', 'int'])}
+    c = {'vals': [str(v) for v in vals], 'signed': signed, 'given': given, 'shape': 'scalar' if n == 1 and rng.random() < 0.7 else 'array',
+         'carrier': rng.choice(['float', 'float', 'int'])}
+    # NumPy carriers of a narrow dtype (values that the dtype holds exactly)
+    if rng.random() < 0.3:
+        import numpy as np
+        cands = []
+        for name in ('int8', 'uint8', 'int16', 'uint16', 'int32', 'uint32', 'float16', 'float32'):
+            dt = np.dtype(name)
+            try:
+                if dt.kind in 'iu':
+                    if all(v.denominator == 1 and np.iinfo(dt).min <= int(v) <= np.iinfo(dt).max for v in vals): cands.append(name)
+                elif all(Fraction(float(dt.type(float(v)))) == v for v in vals): cands.append(name)
+            except (OverflowError, ValueError): pass
+        if cands: c['carrier'] = 'np:' + rng.choice(cands)
+    return c
 
 def run_cases(cases, res):
     fx = lib.impl(); import numpy as np
@@ -56,6 +69,9 @@ def run_cases(cases, res):
         allint = all(v.denominator == 1 for v in vals)
         nums = [int(v) if (c['carrier'] == 'int' and allint) else float(v) for v in vals]
         val = nums[0] if c['shape'] == 'scalar' else (np.array(nums) if rng_choice(c) else list(nums))
+        if c['carrier'].startswith('np:'):
+            dt = np.dtype(c['carrier'][3:])
+            val = dt.type(nums[0]) if c['shape'] == 'scalar' else np.array(nums, dtype=dt)
         try:
             x = fx.Fxp(val, **kw)
             obs = {'fmt': (bool(x.signed), int(x.n_word), int(x.n_frac)), 'n_int': int(x.n_int), 'codes': lib.codes_of(x), 'status': lib.status3(x), 'dtype': x.dtype}
@@ -103,18 +119,31 @@ def rng_choice(c):
     return (hash(repr(c)) & 1) == 0
 
 def capped(rng, n_cases, res):
-    fx = lib.impl()
+    cases = []
     for _ in range(n_cases):
-        v = rng.choice([0.1, 1 / 3.0, -0.7, rng.uniform(-100, 100), rng.uniform(-1, 1) * 2.0 ** rng.randint(-10, 30), math.pi])
-        c = {'capped': repr(v), 'signed': rng.choice([True, None])}
+        def one(): return rng.choice([0.1, 1 / 3.0, -0.7, rng.uniform(-100, 100), rng.uniform(-1, 1) * 2.0 ** rng.randint(-10, 30), math.pi, 1000.1])
+        vs = [one() for _ in range(rng.choice([1, 1, 2, 3]))]
+        signed = rng.choice([True, None, False])
+        if signed is False: vs = [abs(v) for v in vs]
+        cases.append({'capped': [repr(v) for v in vs], 'signed': signed, 'n_word': rng.choice([None, None, 32, 48])})
+    run_capped(cases, res)
+
+def run_capped(cases, res):
+    fx = lib.impl()
+    for c in cases:
+        vs = [float(t) for t in c['capped']]; kw = {}
+        if c['signed'] is not None: kw['signed'] = c['signed']
+        if c.get('n_word'): kw['n_word'] = c['n_word']
         try:
-            x = fx.Fxp(v) if c['signed'] is None else fx.Fxp(v, signed=True)
+            x = fx.Fxp(vs[0] if len(vs) == 1 else vs, **kw)
         except Exception as e:
             res.fail(c, 'C06: capped inference raised %s' % lib.exc_name(e), got=str(e)[:200]); continue
         res.count('C:capped', key=repr(c), nontrivial=True)
-        got = Fraction(lib.codes_of(x)[0]) / Fraction(2) ** x.n_frac
-        if x.n_word > 64 or abs(got - Fraction(v)) >= Fraction(2) ** (-x.n_frac) or (got != Fraction(v) and not x.status['inaccuracy']):
-            res.fail(c, 'C06: capped inference exceeds 64 bits, or errs by a full LSB, or is not flagged inexact', expected='n_word<=64, err<LSB, inaccuracy', got=(x.n_word, x.n_frac, str(got), x.status))
+        got = [Fraction(cd) / Fraction(2) ** x.n_frac for cd in lib.codes_of(x)]; lsb = Fraction(2) ** (-x.n_frac)
+        bad = [(str(g), repr(v)) for g, v in zip(got, vs) if abs(g - Fraction(v)) >= lsb]
+        inexact = any(g != Fraction(v) for g, v in zip(got, vs))
+        if x.n_word > 64 or (c.get('n_word') and x.n_word != c['n_word']) or bad or (inexact and not x.status['inaccuracy']) or x.status['overflow'] or x.status['underflow']:
+            res.fail(c, 'C06: capped inference exceeds the word limit, or errs by a full LSB (overflow), or is not flagged inexact', expected='word within the limit, every element within 1 LSB, only the inaccuracy flag', got=(x.dtype, bad[:3], {k: v for k, v in x.status.items() if v}))
 
 def shard(shard, nshards, rng, tier, extra):
     res = Result()
@@ -133,4 +162,5 @@ def classify(fl): return None
 def replay(payload):
     res = Result(); c = payload['case']
     if 'vals' in c: run_cases([c], res)
+    elif 'capped' in c: run_capped([c], res)
     return {'holds': not res.failures, 'failures': res.failures}
